@@ -3,7 +3,7 @@ differential run + property oracle on every real MIR + known-finding classificat
 import copy
 import json
 from .. import core
-from ..corr import k12, mir as cm
+from ..corr import k10, k12, mir as cm
 from ..real import interp
 from ..real.env import reset_globals
 
@@ -29,15 +29,7 @@ def scopes(events):
     return scope
 
 
-def operand_regs(c):
-    rs = []
-    for k in ("a", "b", "c", "r", "t", "o", "f", "init", "party", "ret"):
-        if k in c and isinstance(c[k], int) and not (c["op"] in ("wrap", "random") and k == "t"):
-            rs.append(c[k])
-    rs += list(c.get("xs", [])) + list(c.get("args", []))
-    if c["op"] == "objectNew":
-        rs += [r for _, r in c["fs"]]
-    return rs
+from ..ir import operand_regs  # noqa: E402
 
 
 def uses_foreign_param(events):
@@ -85,6 +77,51 @@ def rewraps(events):
             used.update(operand_regs(c))
         reg += len(c["params"]) if c["op"] == "beginFn" else 1
     return any(len(ws) > 1 and any(w in used for w in ws[:-1]) for ws in wrapped.values())
+
+
+def binding_inconsistent(rec):
+    """hypothesis BindingConsistent, evaluated on the *program*: some call / map / reduce site binds a parameter
+    (by position, or by name for keyword arguments) to a value whose class differs from the parameter's annotation,
+    or passes the wrong number of arguments to map / reduce (known finding F-C03-1p)"""
+    from ..ir import bound_args
+    events, desc = rec["events"], rec["facts"]["desc"]
+    d = lambda r: desc[r] if r < len(desc) else ("dead",)  # noqa: E731
+
+    def fits(ann, dv):
+        if isinstance(ann, str) and ann != "Array":
+            return dv[0] == "scalar" and dv[1] == ann
+        if ann == "Array":
+            return dv[0] == "array"
+        return dv[0] == "array" and isinstance(ann[1], str) and dv[2] == ann[1]
+
+    reg, stack, defs = 0, [], {}
+    for ev, res in zip(events, rec["real"]):
+        c = ev.get("c")
+        if c is None:
+            continue
+        op = c["op"]
+        if op == "beginFn":
+            stack.append(c)
+        elif op == "endFn" and stack:
+            b = stack.pop()
+            defs[reg] = (b["params"], c["retAnn"])
+        elif res.get("s") is None and op in ("call", "map", "reduce") and c["f"] in defs:
+            params, ret = defs[c["f"]]
+            if op == "call":
+                bound = bound_args(c, [n for n, _ in params])
+                if bound is None or len(bound) != len(params) or not all(fits(a, d(r)) for (_, a), r in zip(params, bound)):
+                    return True
+            elif op == "map":
+                da = d(c["a"])
+                if len(params) != 1 or da[0] != "array" or not fits(params[0][1], ("scalar", da[2])):
+                    return True
+            else:
+                da, di = d(c["a"]), d(c["init"])
+                if len(params) != 2 or da[0] != "array" or not fits(params[1][1], ("scalar", da[2])) \
+                        or not fits(params[0][1], di) or params[0][1] != ret:
+                    return True
+        reg += len(c["params"]) if op == "beginFn" else 1
+    return False
 
 
 def unsized_array(events):
@@ -173,6 +210,7 @@ def run_graph(res, tier, prop, oracle, project=None, classify=None, spec_key=Non
                 samples.append({"program": rec["id"], "events": rec["events"][:12], "n_events": len(rec["events"])})
         if len(res.violations) > 20:
             break
+    k10stats = run_k10(res, prop, recs, oracle, project, classify, findings, masked)
     for rec, d in diffs[:5]:
         res.broken.append({"decl": "K1/K2 correspondence (layer-B model vs real implementation)",
                            "msg": json.dumps(d, default=str)[:500], "program": rec["id"], "events": rec["events"]})
@@ -188,6 +226,7 @@ def run_graph(res, tier, prop, oracle, project=None, classify=None, spec_key=Non
         "programs_skipped": sum(1 for r in recs if r["skipped"]),
         "correspondence_disagreements": len(diffs),
         "masked_by_known_findings": masked,
+        "entry_point_composition_K10": k10stats,
         "samples": samples or [{"program": r["id"], "events": r.get("events", [])[:8]} for r in recs[:2]],
     })
     res.assumptions += [
@@ -196,6 +235,60 @@ def run_graph(res, tier, prop, oracle, project=None, classify=None, spec_key=Non
         "generated programs: sizes <= %d commands, function nesting <= 2" % size,
     ]
     return recs
+
+
+def run_k10(res, prop, recs, oracle, project, classify, findings, masked):
+    """K10: every program is also compiled through the real entry points (compile_script / compile_string, several
+    programs per process sharing traced values); the MIRs must equal the direct ones and satisfy the property."""
+    stats = {"programs": 0, "mirs_compared": 0, "not_renderable": 0, "disagreements": 0, "via": {"script": 0, "string": 0}}
+    for idx, rec in enumerate(recs):
+        if rec["skipped"] or len(res.violations) > 20:
+            continue
+        via = "string" if idx % 3 == 0 else "script"
+        try:
+            r = k10.run_scripts(rec["events"], rec["real"], f"{prop.lower()}x{idx}", via=via)
+        except Exception as exc:  # pylint: disable=broad-except
+            raise core.Infra(f"K10 harness failed on program {rec['id']}: {type(exc).__name__}: {exc}")
+        if r is None:
+            stats["not_renderable"] += 1
+            continue
+        outs, files = r
+        stats["programs"] += 1
+        stats["via"][via] += 1
+        direct = [(ev, rr) for ev, rr in zip(rec["events"], rec["real"]) if "compile" in ev]
+        for (ev, rr), ep in zip(direct, outs):
+            stats["mirs_compared"] += 1
+            if "mir" in rr and "mir" in ep:
+                a, b = cm.canon_mir(rr["mir"]), ep["mir"]
+                d = cm.first_diff(project(a), project(b)) if project else cm.first_diff(a, b)
+            elif "mir" in rr or "mir" in ep:
+                d = f"direct: {rr.get('err', 'compiled')}, through {via}: {ep.get('msg', ep.get('err', 'compiled'))}"
+            else:
+                d = None if rr.get("err") in (ep.get("err"), "dead") else f"direct error {rr.get('err')}, through {via}: {ep.get('msg')}"
+            if d is None:
+                continue
+            stats["disagreements"] += 1
+            if len(res.broken) < 5:
+                res.broken.append({"decl": f"K10 entry-point composition (compile_{via} vs trace + nada_dsl_to_nada_mir)", "msg": str(d)[:500],
+                                   "program": rec["id"], "files": [[fn, text[:1500]] for fn, text in files][:6]})
+            if "mir" not in ep:
+                # a program the direct path compiles is rejected (or vice versa) through the entry point
+                if "mir" in rr:
+                    res.violation({"property": prop, "kind": "entry-point-rejects", "text": str(d), "program": rec["id"], "events": rec["events"],
+                                   "k10": via, "files": files, "replay": f"./check {prop} --replay <this file>"},
+                                  f"entry-point-rejects: a program that compiles when traced directly fails through compile_{via}: {d}"[:400])
+                continue
+            for kind, text in oracle(ep["mir"], dict(rec, compile=ev["compile"])):
+                hyp = classify(kind, rec, ep["mir"]) if classify else None
+                fid = next((f["id"] for f in findings if kind in f["signature"]["kinds"]
+                            and f["signature"].get("hypothesis") == hyp), None) if hyp else None
+                if fid:
+                    masked[fid] = masked.get(fid, 0) + 1
+                    continue
+                res.violation({"property": prop, "kind": kind, "text": text, "program": rec["id"], "events": rec["events"], "k10": via,
+                               "files": files, "hypothesis_violated": hyp, "replay": f"./check {prop} --replay <this file>"},
+                              f"{kind} (compiled through compile_{via}, {len(outs)} programs in one process): {text}"[:400])
+    return stats
 
 
 _SPEC_KINDS = {
@@ -211,6 +304,20 @@ def replay_graph(obj, prop, oracle):
     reset_globals()
     m = interp.run_events(copy.deepcopy(obj["events"]))
     bad = []
+    if obj.get("k10"):
+        facts = k12.reg_facts(m)
+        outs, _ = k10.run_scripts(m.events, m.results, "replay", via=obj["k10"])
+        direct = [(e, rr) for e, rr in zip(m.events, m.results) if "compile" in e]
+        for (e, rr), ep in zip(direct, outs):
+            if "mir" in ep:
+                bad += [v for v in oracle(ep["mir"], {"events": m.events, "real": m.results, "facts": facts, "compile": e["compile"]})
+                        if v[0] == obj.get("kind", v[0])]
+            elif "mir" in rr and obj.get("kind") == "entry-point-rejects":
+                bad.append(("entry-point-rejects", ep.get("msg")))
+        print(json.dumps({"events": len(m.events), "via": obj["k10"], "violations": bad[:5]}, default=str)[:2000])
+        if bad:
+            print(f"VIOLATION property={prop} replay=(replayed)")
+        return 1 if bad else 0
     for r in m.results:
         if "mir" in r:
             bad += [v for v in oracle(cm.canon_mir(r["mir"]), {"events": m.events, "real": m.results, "facts": k12.reg_facts(m),
